@@ -13,7 +13,7 @@ use chrono::Utc;
 use std::path::Path;
 use tako::gateway::TaskSubmit;
 use tako::resources::ResourceDescriptor;
-use tako::{InstanceId, ItemId, JobId, JobTaskId, Map, WorkerId};
+use tako::{InstanceId, ItemId, JobId, JobTaskCount, JobTaskId, Map, TaskId, WorkerId};
 
 struct RestorerTaskInfo {
     state: JobTaskState,
@@ -39,6 +39,10 @@ struct RestorerJob {
     tasks: Map<JobTaskId, RestorerTaskInfo>,
     is_open: bool,
     cancel_reason: String,
+    n_failed_tasks: JobTaskCount,
+    /// The limit of failures of the job was exceeded when the job had this many submits and
+    /// the record of the abort of their unfinished tasks has not been found in the journal
+    n_submits_to_abort: usize,
 }
 
 pub struct Queue {
@@ -65,7 +69,8 @@ impl RestorerJob {
         }
         state.add_job(job);
         let mut result: Vec<TaskSubmit> = Vec::new();
-        for submit in self.submit_descs {
+        let mut tasks_to_abort: Vec<TaskId> = Vec::new();
+        for (submit_idx, submit) in self.submit_descs.into_iter().enumerate() {
             if let Some(e) = validate_submit(state.get_job(job_id), &submit.description().task_desc)
             {
                 return Err(HqError::GenericError(format!(
@@ -111,17 +116,26 @@ impl RestorerJob {
                     .retain(|d| !is_task_completed(&self.tasks, d.job_task_id()));
                 !is_task_completed(&self.tasks, t.id.job_task_id())
             });
-            if !new_tasks.tasks.is_empty() {
+            if submit_idx < self.n_submits_to_abort {
+                tasks_to_abort.extend(new_tasks.tasks.iter().map(|t| t.id));
+            } else if !new_tasks.tasks.is_empty() {
                 result.push(new_tasks);
             }
         }
-        // The journal may end between the record of the last task outcome and JobCompleted
-        // (e.g. the server has crashed). No task of such a job is going to report anything,
-        // so the job has to be completed here.
-        state
-            .get_job_mut(job_id)
-            .unwrap()
-            .check_termination(senders, Utc::now());
+        let job = state.get_job_mut(job_id).unwrap();
+        if !tasks_to_abort.is_empty() {
+            // The journal may end between the TaskFailed record that exceeds the limit of
+            // failures of the job and the TasksAborted record for the rest of the job
+            // (e.g. the server has crashed). The rest of the job is aborted (and the abort is
+            // recorded) here and it is not handed to the scheduler.
+            // `abort_tasks` also checks the termination of the job.
+            job.abort_tasks(tasks_to_abort, senders);
+        } else {
+            // The journal may end between the record of the last task outcome and JobCompleted
+            // (e.g. the server has crashed). No task of such a job is going to report anything,
+            // so the job has to be completed here.
+            job.check_termination(senders, Utc::now());
+        }
         Ok(result)
     }
 
@@ -132,11 +146,26 @@ impl RestorerJob {
             tasks: Map::new(),
             is_open,
             cancel_reason: String::default(),
+            n_failed_tasks: 0,
+            n_submits_to_abort: 0,
         }
     }
 
     pub fn add_submit(&mut self, submit: SubmittedJobDescription) {
         self.submit_descs.push(submit)
+    }
+
+    /// When a failure exceeds the limit of failures of the job, the server aborts all unfinished
+    /// tasks that the job has at that moment; TasksAborted follows TaskFailed in the journal.
+    pub fn count_failed_task(&mut self) {
+        self.n_failed_tasks += 1;
+        if self
+            .job_desc
+            .max_fails
+            .is_some_and(|max_fails| self.n_failed_tasks > max_fails)
+        {
+            self.n_submits_to_abort = self.submit_descs.len();
+        }
     }
 
     pub fn increase_crash_counters(&mut self, worker_id: WorkerId) {
@@ -366,6 +395,7 @@ impl StateRestorer {
                                 },
                             );
                         }
+                        job.count_failed_task();
                     }
                 }
                 EventPayload::TasksCanceled { task_ids } => {
@@ -408,6 +438,7 @@ impl StateRestorer {
                     log::debug!("Replaying: TasksAborted {task_ids:?}");
                     for task_id in task_ids {
                         if let Some(job) = self.jobs.get_mut(&task_id.job_id()) {
+                            job.n_submits_to_abort = 0;
                             let task = job.tasks.get_mut(&task_id.job_task_id());
                             if let Some(task) = task {
                                 task.state =
